@@ -3,6 +3,7 @@ package world
 import (
 	"context"
 	"fmt"
+	"strings"
 	"time"
 
 	"github.com/relab/gorums"
@@ -74,7 +75,7 @@ func (c *Call) perNodeFn() func(*zsvc.Request, uint32) *zsvc.Request {
 			}
 		}
 		if spec.Distinct {
-			return &zsvc.Request{Value: fmt.Sprintf("%s/n%d", in.GetValue(), id)}
+			return &zsvc.Request{Value: distinctVal(in.GetValue(), id)}
 		}
 		return in
 	}
@@ -91,6 +92,9 @@ func (w *World) newCall(m *Mgr, ti, oi int, op *Op) *Call {
 	}
 	w.mu.Unlock()
 	c.ReqVal = fmt.Sprintf("t%d", c.Tok)
+	if op.PadKB > 0 {
+		c.ReqVal += "~" + strings.Repeat("x", op.PadKB*1024)
+	}
 	if info.ReqEmpty {
 		c.Req = &emptypb.Empty{}
 		c.ReqVal = ""
@@ -115,7 +119,7 @@ func (w *World) newCall(m *Mgr, ti, oi int, op *Op) *Call {
 				}
 			}
 			if op.PerNode.Distinct {
-				val = fmt.Sprintf("%s/n%d", c.ReqVal, nodeID(si))
+				val = distinctVal(c.ReqVal, nodeID(si))
 			}
 		}
 		if !skip {
@@ -232,6 +236,15 @@ func (w *World) doCall(m *Mgr, ti, oi int, op *Op) *Call {
 		w.startObservers(m, ti, c)
 	}
 	return c
+}
+
+// distinctVal derives the per-node payload "t<tok>/n<id>[~padding]" from "t<tok>[~padding]".
+func distinctVal(v string, id uint32) string {
+	pad := ""
+	if i := strings.IndexByte(v, '~'); i >= 0 {
+		v, pad = v[:i], v[i:]
+	}
+	return fmt.Sprintf("%s/n%d%s", v, id, pad)
 }
 
 func firstLine(s string) string {
